@@ -15,7 +15,9 @@ from fake_net import CLI, OTH
 
 # 1: same host, other port; 2: other host, same port as the client; 3: other host and port;
 # 4: source port 0 (the fake socket's sendto to it fails with EINVAL, as the real one's does)
-ADDRS = {0: CLI, 1: OTH, 2: ("::2", 5555, 0, 0), 3: ("2001:db8::7", 4711, 0, 0), 4: ("2001:db8::9", 0, 0, 0)}
+# 5 / 6: the client's host and port with another scope id / flow info: other socket addresses, hence foreign
+ADDRS = {0: CLI, 1: OTH, 2: ("::2", 5555, 0, 0), 3: ("2001:db8::7", 4711, 0, 0), 4: ("2001:db8::9", 0, 0, 0),
+         5: (CLI[0], CLI[1], 0, 3), 6: (CLI[0], CLI[1], 9, 0)}
 ADDR_ID = {v: k for k, v in ADDRS.items()}
 TICKS = 1024
 
@@ -44,10 +46,14 @@ def kind_sx(c):
     n = len(c["content"])
     if k[0] in ("noreg", "bufshort"):
         return [2]
+    # optional third element: the position is that many bytes BEYOND the end (legal for BytesIO and files;
+    # the content of such a case is empty: nothing can be read there)
+    beyond = k[2] if len(k) > 2 else 0
+    assert not (beyond and n), "a stream positioned beyond its end has no content to deliver"
     if k[0] == "bytesio":
-        return [0, n + k[1], k[1]]
+        return [0, n + k[1], k[1] + beyond]
     if k[0] == "file":
-        return [1, n + k[1], k[1], 1]
+        return [1, n + k[1], k[1] + beyond, 1]
     if k[0] == "pipe":
         return [1, 0, 0, 0]
     raise ValueError(k)
@@ -124,14 +130,14 @@ def open_stream(c, log, tmpfiles):
     elif k[0] == "bytesio":
         f = _LoggedBytesIO(b"P" * k[1] + c["content"])
         f._log = log
-        f.seek(k[1])
+        f.seek(k[1] + (k[2] if len(k) > 2 else 0))
     elif k[0] == "file":
         fd, path = tempfile.mkstemp(prefix="vf_tsize_")
         os.write(fd, b"P" * k[1] + c["content"])
         os.close(fd)
         tmpfiles.append(path)
         f = open(path, "rb")
-        f.seek(k[1])
+        f.seek(k[1] + (k[2] if len(k) > 2 else 0))
     elif k[0] == "pipe":
         r, w = os.pipe()
         os.write(w, c["content"])      # callers keep pipe content below the pipe buffer size
@@ -220,7 +226,7 @@ def coop_script(rng, wants, tmo_ticks, retries, fault_rate=0.5, t0=0):
             elif k < 0.6:
                 ev.append((t + dt, 0, ack(w + 1)))          # future
             elif k < 0.8:
-                ev.append((t + dt, rng.choice([1, 2, 3, 4]), ack(w)))   # foreign sender
+                ev.append((t + dt, rng.choice([1, 2, 3, 4, 5, 6]), ack(w)))   # foreign sender
             else:
                 ev.append((t + dt, 0, ack(w + 2)))
             t += dt
